@@ -31,6 +31,7 @@ import (
 	"github.com/vx-labs/wasp/v4/wasp/auth"
 	"github.com/vx-labs/wasp/v4/wasp/distributed"
 	"github.com/vx-labs/wasp/v4/wasp/messages"
+	"github.com/vx-labs/wasp/v4/wasp/taps"
 	"github.com/vx-labs/wasp/v4/wasp/transport"
 	"go.uber.org/zap"
 	"google.golang.org/grpc"
@@ -407,6 +408,7 @@ type NodeOpts struct {
 
 // World is one complete in-process deployment.
 type World struct {
+	tapDelay atomic.Int64
 	T    *testing.T
 	mu   sync.Mutex
 	seq  int64
@@ -562,7 +564,19 @@ func (w *World) newNode(id uint64, o NodeOpts) *Node {
 	}
 	n.goRun(wasp.SchedulePublishes(id, n.Writer, n.Log))
 	n.goRun(func(ctx context.Context) { n.Writer.Run(ctx, n.Log) })
-	pp := wasp.NewPacketProcessor(n.Local, n.DState, n.Writer, nopTaps{}, n.Dist, n.Acks)
+	// the broker's own tap dispatcher (cmd/wasp wires one tap into it: stdout, syslog or a remote recorder); the tap of the
+	// harness records nothing and takes w.tapDelay of virtual time per message (a recorder slower than the publishers)
+	tapsRunner := taps.NewDispatcher([]taps.Tap{func(ctx context.Context, sender string, p *packet.Publish) error {
+		if d := w.tapDelay.Load(); d > 0 {
+			select {
+			case <-time.After(time.Duration(d)):
+			case <-ctx.Done():
+			}
+		}
+		return nil
+	}})
+	n.goRun(tapsRunner.Run)
+	pp := wasp.NewPacketProcessor(n.Local, n.DState, n.Writer, tapsRunner, n.Dist, n.Acks)
 	n.goRun(pp.Run)
 	n.Manager = wasp.NewConnectionManager(w.Auth, n.Local, &seamState{State: n.DState, w: w, node: n}, n.Writer, pp, n.Acks)
 	n.goRun(n.Manager.Run)
@@ -857,6 +871,9 @@ func (w *World) SetUnreachable(from, to int, on bool) {
 	w.mu.Unlock()
 }
 func (w *World) FailLog(node int, on bool) { w.Node(node).Log.fail.Store(on) }
+
+// SlowTap makes the message recorder (tap) of every node take d of virtual time per message.
+func (w *World) SlowTap(d time.Duration) { w.tapDelay.Store(int64(d)) }
 
 // SlowLog makes every append on node take d of virtual time.
 func (w *World) SlowLog(node int, d time.Duration) { w.Node(node).Log.slow.Store(int64(d)) }
